@@ -4,12 +4,12 @@ import (
 	"bufio"
 	"encoding/json"
 	"fmt"
+	edsv1 "github.com/DataDog/extendeddaemonset/api/v1alpha1"
 	"io"
 	"math/rand"
 	"sort"
 	"strconv"
 	"strings"
-	"time"
 
 	corev1 "k8s.io/api/core/v1"
 )
@@ -46,7 +46,7 @@ type Driver struct {
 	Applied  int
 	Out      *bufio.Writer
 	NEvents  int
-	Keep     bool // keep events in memory (C.Events)
+	Keep     bool                                              // keep events in memory (C.Events)
 	Cmd      func(c *Cluster, key, name string) (Event, error) // kubectl-eds shim (build tag verif)
 }
 
@@ -172,7 +172,25 @@ func (d *Driver) Apply(a Action) (Event, bool) {
 		c.Tick(n)
 		return env(nil)
 	case "CreateEDS":
-		return env(c.CreateEDS(ns, name, a.T, d.Strategy[a.Key]))
+		if err := c.CreateEDS(ns, name, a.T, d.Strategy[a.Key]); err != nil {
+			return env(err)
+		}
+		if a.W != "" {
+			// W = "k=v,k=v": extra metadata labels of the ExtendedDaemonSet ("name" stands for the controller's own name label key)
+			return env(c.MutateEDS(ns, name, func(e *edsv1.ExtendedDaemonSet) {
+				for _, kv := range strings.Split(a.W, ",") {
+					p := strings.SplitN(kv, "=", 2)
+					if len(p) != 2 {
+						continue
+					}
+					if p[0] == "name" {
+						p[0] = edsv1.ExtendedDaemonSetNameLabelKey
+					}
+					e.Labels[p[0]] = p[1]
+				}
+			}))
+		}
+		return env(nil)
 	case "DeleteEDS":
 		e, err := c.GetEDS(ns, name)
 		if err != nil {
@@ -250,7 +268,7 @@ func (d *Driver) Apply(a Action) (Event, bool) {
 		for len(parts) < 4 {
 			parts = append(parts, "")
 		}
-		return env(c.CreateSetting(ns, a.V, parts[0], parts[1], parts[2], parts[3] == "expr", time.Now().Add(-time.Duration(a.I)*Unit)))
+		return env(c.CreateSetting(ns, a.V, parts[0], parts[1], parts[2], parts[3] == "expr", c.settingInstant(a.I)))
 	case "DeleteSetting":
 		return env(c.DeleteSetting(ns, a.V))
 	case "Mark":
@@ -496,7 +514,9 @@ func (d *Driver) Walk(r *rand.Rand, wc WalkConfig) {
 	}
 	if wc.Foreign {
 		acts = append(acts,
-			weighted{3, func() Action { return Action{Op: "ForeignPod", Key: key, N: pick(wc.Nodes), V: pick([]string{"dup", "unrelated", "otherns"})} }},
+			weighted{3, func() Action {
+				return Action{Op: "ForeignPod", Key: key, N: pick(wc.Nodes), V: pick([]string{"dup", "unrelated", "otherns"})}
+			}},
 		)
 	}
 	_ = ns
